@@ -24,12 +24,18 @@ enum Tamper {
 
 fn history(ctx: &mut Ctx, ke: &BigUint, ida: &[u8], idb: &[u8], klen: usize, r_a: &BigUint, r_b: &BigUint, tamper: Tamper, p: &mut Prng) {
     let pr = r9::params();
-    let mk = enc_master(ke);
+    let real_mk = enc_master(ke);
+    // the parties only hold Ppub-e: every other history uses a placeholder in the ke field for the protocol steps
+    let mut mk = real_mk;
+    if klen % 2 == 1 {
+        mk.ke = [0; 4];
+        ctx.class("parties_have_public_master_key_only");
+    }
     let w = || json!({"case": wit(ke, ida, idb, klen, r_a, r_b), "tamper": format!("{:?}", tamper)});
     ctx.class(&format!("tamper={:?}", tamper));
     ctx.distinct("hist", &[&r9::b32(ke), ida, idb, &(klen as u32).to_be_bytes(), &r9::b32(r_a), &r9::b32(r_b), &[tamper as u8]]);
     // keys: extracted by the library
-    let (ka, kb) = match (guard(|| mk.extract_exch_key(ida)), guard(|| mk.extract_exch_key(idb))) {
+    let (ka, kb) = match (guard(|| real_mk.extract_exch_key(ida)), guard(|| real_mk.extract_exch_key(idb))) {
         (Outcome::Ret(Some(a)), Outcome::Ret(Some(b))) => (a, b),
         _ => {
             if r9::extract_enc_key(ke, ida, r9::HID_EXCH).is_some() && r9::extract_enc_key(ke, idb, r9::HID_EXCH).is_some() {
@@ -194,7 +200,7 @@ pub fn run(ctx: &mut Ctx) {
     for (n, ok) in r9::selftest(ctx.shard == 0) {
         ctx.selftest(&n, ok);
     }
-    ctx.require(&["annex_kat", "honest_keys_equal", "tampered_keys_differ", "responder_rejects_offcurve_RA", "initiator_rejects_offcurve_RB", "tamper=RaOther", "tamper=RbOther", "tamper=RaBitflipOnCurve", "tamper=RbNeg", "klen=1", "klen=128"]);
+    ctx.require(&["annex_kat", "honest_keys_equal", "tampered_keys_differ", "responder_rejects_offcurve_RA", "initiator_rejects_offcurve_RB", "tamper=RaOther", "tamper=RbOther", "tamper=RaBitflipOnCurve", "tamper=RbNeg", "klen=1", "klen=128", "parties_have_public_master_key_only"]);
     let pr = r9::params();
     let mut paux = ctx.prng("aux");
     if ctx.shard == 0 {
